@@ -49,6 +49,12 @@ def run(ck):
     for _ in range(120 if thorough else 22):
         nodes, data0, ctx0 = tl.gen_base(rng, stats, maxlen=6)
         cases.append({"nodes": nodes, "data0": data0, "ctx0": ctx0, "kind": "none", "index": None})
+    # non-finite parameter values (legal floats; outside the model's integers, so the direct oracle alone judges them):
+    # what is recorded about them must not change what the run returns
+    for key, node in (("factor", {"k": "mul"}), ("addend", {"k": "add"})):
+        for v in (float("inf"), float("nan"), float("-inf")):
+            cases.append({"nodes": [{"k": "src", "cfg": {"value": 1}}, node, {"k": "probe", "ckey": "k"}], "data0": None,
+                          "ctx0": {key: v}, "kind": "none", "index": None})
     cases += tl.failure_cases(rng, 10 if thorough else 3, stats, maxlen=4, every_index=thorough)
     history_pool = [tl.gen_base(rng, stats, maxlen=4) for _ in range(12)]
     texts, kept, reported = [], [], {}
